@@ -68,6 +68,21 @@ Theorem C14_typed_text_roundtrip :
       from_str F F32 f2z narrow fparse t (to_string F F32 of_int widen fdisplay t v) = Ok v.
 Proof. exact typed_text_roundtrip. Qed.
 
+(* ... with hypotheses that can be read off the declaration and the value: every JSON name of the type and every string of the
+   value is made of code points (always true in Rust), every number of the value is finite as a double (text_ok: floats finite,
+   of_int z finite), and the type nests at most MAX_DEPTH arrays / objects (ty_depth) *)
+Theorem C14_typed_text_roundtrip_decl :
+  forall (F F32 : Type) (of_int : Z -> F) (f2z : F -> Z) (widen : F32 -> F) (narrow : F -> F32)
+         (fparse : str -> option F) (fdisplay : F -> str) (ffinite : F -> Prop),
+    (forall x : F32, narrow (widen x) = x) ->
+    (forall x, ffinite x -> JNumber (fdisplay x)) ->
+    (forall x, ffinite x -> fparse (fdisplay x) = Some x) ->
+    forall (t : ty) (v : rval F F32),
+      wf_ty t -> has_type F F32 v t -> lossless F F32 of_int f2z t v ->
+      names_all str_ok t -> text_ok F F32 of_int widen ffinite t v -> ty_depth t <= MAX_DEPTH ->
+      from_str F F32 f2z narrow fparse t (to_string F F32 of_int widen fdisplay t v) = Ok v.
+Proof. exact typed_text_roundtrip_decl. Qed.
+
 (* ---------------- typed mapping: documented shape ---------------- *)
 
 (* a named struct maps to an object whose members are, in declaration order, (field name or rename, to_json of the field) *)
@@ -269,6 +284,7 @@ Print Assumptions C14_typed_roundtrip.
 Print Assumptions C14_typed_roundtrip_values.
 Print Assumptions C14_typed_roundtrip_iff.
 Print Assumptions C14_typed_text_roundtrip.
+Print Assumptions C14_typed_text_roundtrip_decl.
 Print Assumptions C14_shape_struct.
 Print Assumptions C14_shape_tuple.
 Print Assumptions C14_shape_enum.
